@@ -72,6 +72,7 @@ def _job(job) -> List[Dict[str, Any]]:
         inst("R8.1", "VIOLATED", f"{op} returns normally ({case})", f"a valid game may raise {ev.data['exc'] if ev else '?'} at {where(ev)[1] if ev else '?'}:{where(ev)[2] if ev else 0}")
         return out
     I, st = oc.I, oc.world.state
+    failed_lemmas = sorted({f"{ev.data['name']}: {ev.data['why']}" for ev in I.events if ev.kind == "lemma-failed"})
     for d in I.obligations.values():
         f = d["func"]
         m, _, qn = f.partition("::")
@@ -87,8 +88,9 @@ def _job(job) -> List[Dict[str, Any]]:
                 v = ev.data.get("val")
                 m, fn, ln = where(ev)
                 ok = isinstance(v, Num) and v.rng is not None and v.rng.finite()
-                inst("R8.2", "HOLDS" if ok else "VIOLATED", f"stored {ev.data['field']} is finite: {norm_text(ev.node, 60)}",
-                     "" if ok else f"the interval analysis cannot bound the stored {ev.data['field']} ({getattr(v, 'rng', None)}) on the input box ({case}): silent overflow to inf/nan is possible",
+                inst("R8.2", "HOLDS" if ok else ("UNDECIDED" if failed_lemmas else "VIOLATED"), f"stored {ev.data['field']} is finite: {norm_text(ev.node, 60)}",
+                     "" if ok else f"the interval analysis cannot bound the stored {ev.data['field']} ({getattr(v, 'rng', None)}) on the input box ({case}): silent overflow to inf/nan is possible"
+                     + (f" [a relational lemma could not be discharged: {failed_lemmas[0]}]" if failed_lemmas else ""),
                      {"range": str(getattr(v, "rng", None))}, m, fn, ln)
     else:
         nums: List[Num] = []
